@@ -758,7 +758,7 @@ proof fn lemma_dt_full(e: XlsEncoding, eff: Option<bool>, rgb: Seq<u8>, cch: int
 }
 
 /// has this BIFF version a flag byte in front of character data (BIFF8) or not
-pub open spec fn biff_has_flags(b: Biff) -> bool { b is Biff8 }
+spec fn biff_has_flags(b: Biff) -> bool { b is Biff8 }
 
 mod m_strings {
 use super::*;
@@ -773,8 +773,8 @@ use super::*;
 //@@ endimpl
 
 /// [MS-XLS] 2.5.240 ShortXLUnicodeString: cch (1 byte), BIFF8: flags (1 byte, bit 0 fHighByte), rgb
-pub open spec fn short_hdr(b: Biff) -> int { if biff_has_flags(b) { 2 } else { 1 } }
-pub open spec fn short_hb(d: Seq<u8>, b: Biff) -> Option<bool> { if biff_has_flags(b) { Some(d[1] & 0x1 != 0) } else { None } }
+spec fn short_hdr(b: Biff) -> int { if biff_has_flags(b) { 2 } else { 1 } }
+spec fn short_hb(d: Seq<u8>, b: Biff) -> Option<bool> { if biff_has_flags(b) { Some(d[1] & 0x1 != 0) } else { None } }
 
 //@@ fn src/xls.rs parse_short_string props=C12,C19 entry ret=res
 //@@ sig
@@ -795,13 +795,13 @@ pub open spec fn short_hb(d: Seq<u8>, b: Biff) -> Option<bool> { if biff_has_fla
 //@@ end
 
 /// [MS-XLS] 2.5.294 XLUnicodeString: cch (2 bytes), BIFF8: flags (1 byte), rgb.  (BIFF5: cch (2 bytes), rgb in the code page.)
-pub open spec fn xl_hdr(b: Biff) -> int { if biff_has_flags(b) { 3 } else { 2 } }
-pub open spec fn xl_hb(r: Seq<u8>, b: Biff) -> Option<bool> { if biff_has_flags(b) { Some(r[2] & 0x1 != 0) } else { None } }
+spec fn xl_hdr(b: Biff) -> int { if biff_has_flags(b) { 3 } else { 2 } }
+spec fn xl_hb(r: Seq<u8>, b: Biff) -> Option<bool> { if biff_has_flags(b) { Some(r[2] & 0x1 != 0) } else { None } }
 /// a complete XLUnicodeString: header and all cch characters present
-pub open spec fn xl_wf(e: XlsEncoding, r: Seq<u8>, b: Biff) -> bool {
+spec fn xl_wf(e: XlsEncoding, r: Seq<u8>, b: Biff) -> bool {
     r.len() >= xl_hdr(b) && str_fits(eff_hb(e, xl_hb(r, b)), r.skip(xl_hdr(b)), le16(r))
 }
-pub open spec fn xl_text(e: XlsEncoding, r: Seq<u8>, b: Biff) -> Seq<char> {
+spec fn xl_text(e: XlsEncoding, r: Seq<u8>, b: Biff) -> Seq<char> {
     str_text(e, eff_hb(e, xl_hb(r, b)), r.skip(xl_hdr(b)), le16(r))
 }
 
@@ -1086,6 +1086,8 @@ proof fn lemma_dbcs_reads_layout(ss: Seq<Seg>, tail: Seq<u8>)
         let l = imin(f[0].len() as int / w, u0);
         assert(l == u0);
         assert(f[0].subrange(0, l * w) =~= ss[0].bytes);
+        assert(l * w == ss[0].bytes.len());
+        assert(f[0].subrange(l * w, f[0].len() as int) =~= tail);
         assert(adv(f, l * w) =~= seq![tail]);
         assert(seq![Seg { wide: hb, bytes: ss[0].bytes }] =~= ss);
     } else {
@@ -1108,7 +1110,10 @@ proof fn lemma_dbcs_reads_layout(ss: Seq<Seg>, tail: Seq<u8>)
         assert(f[1][0] == flag_byte(ss[1].wide));
         lemma_flag_byte(ss[1].wide);
         assert(rest_ss[0] == ss[1]);
-        assert(adv(next_frag(f), 1) =~= rest);
+        let nf = next_frag(f);
+        assert(nf =~= rest.update(0, seq![flag_byte(ss[1].wide)] + rest[0]));
+        assert(nf[0].subrange(1, nf[0].len() as int) =~= rest[0]);
+        assert(adv(nf, 1) =~= rest);
         assert(seq![Seg { wide: hb, bytes: ss[0].bytes }] + rest_ss =~= ss);
     }
 }
